@@ -174,7 +174,7 @@ fn test(case: &Case, st: &mut Stats, counting: bool, handle_io: bool) -> CaseRes
                         local.label("fault_behind_altroot");
                     }
                     if k >= 1 && n >= 2 {
-                        local.nontrivial.insert(crate::util::fnv_str(&format!("{}|{}|{}|{}", cfg.render(), target.render(), k, method)));
+                        local.nontrivial.insert(crate::util::fnv_str(&format!("{}|{}|{}", cfg.render(), target.render(), k)));
                     }
                     local.label(&format!("faulted_method:{}", method));
                 }
@@ -212,7 +212,7 @@ pub fn replay(v: &Value) -> CaseResult {
     test(&Case { base, targets }, &mut st, false, handle_io)
 }
 
-const RULE: &str = "stacks (plain backend, altroot, overlay with 1..3 layers incl. altroot/overlay layers, altroot over overlay, overlay on sub-paths) with EVERY leaf backend wrapped in FaultFS; a generated history of <=12 ops establishes a state, then 1..2 target ops (biased to create_dir_all, remove_dir_all, copy/move file/dir, walk_dir, read_to_string, plus adapter primitives and observers) are run: first fault-free on a replica to count the N trait calls reaching any leaf and to record result R* and post-state S*, then for EVERY k<N (cap 400) on a fresh replica rebuilt by deterministic replay with the k-th call failing with an I/O error (thorough: also handle reads/writes); oracle per injection: no panic, lower overlay layers unchanged, and if the faulted run returns Ok then R* is Ok, the value equals R* and the tree observed with faults disarmed equals S*; evaluations = injections; non-trivial = injection at k>=1 into a target making >=2 underlying calls, distinct by (stack, target, k, faulted method)";
+const RULE: &str = "stacks (plain backend, altroot, overlay with 1..3 layers incl. altroot/overlay layers, altroot over overlay, overlay on sub-paths) with EVERY leaf backend wrapped in FaultFS; a generated history of <=12 ops establishes a state, then 1..2 target ops (biased to create_dir_all, remove_dir_all, copy/move file/dir, walk_dir, read_to_string, plus adapter primitives and observers) are run: first fault-free on a replica to count the N trait calls reaching any leaf and to record result R* and post-state S*, then for EVERY k<N (cap 400) on a fresh replica rebuilt by deterministic replay with the k-th call failing with an I/O error (a second pass also counts and fails the reads/writes on file handles handed out by the wrapped filesystems); oracle per injection: no panic, lower overlay layers unchanged, and if the faulted run returns Ok then R* is Ok, the value equals R* and the tree observed with faults disarmed equals S*; evaluations = injections; non-trivial = injection at k>=1 into a target making >=2 underlying calls, distinct by (stack, target, k)";
 
 pub fn run(ctx: &RunCtx) -> i32 {
     let reg = crate::regress::run_for(&ctx.id, &replay);
@@ -221,10 +221,10 @@ pub fn run(ctx: &RunCtx) -> i32 {
         println!("VIOLATION property={} replay={}", ctx.id, path);
         return 1;
     }
-    let handle_io = ctx.tier == Tier::Thorough;
-    let (mut stats, mut failure) = run_sharded(ctx, "faults", ctx.tier.pick(2500, 30_000), strategy, |c, st, counting| test(c, st, counting, false));
-    if failure.is_none() && handle_io {
-        let (s2, f2) = run_sharded(ctx, "faults-io", 2000, strategy, |c, st, counting| test(c, st, counting, true));
+        let (mut stats, mut failure) = run_sharded(ctx, "faults", ctx.tier.pick(2500, 120_000), strategy, |c, st, counting| test(c, st, counting, false));
+    if failure.is_none() {
+        // also fail the k-th read/write on file handles handed out by the wrapped filesystems
+        let (s2, f2) = run_sharded(ctx, "faults-io", ctx.tier.pick(800, 30_000), strategy, |c, st, counting| test(c, st, counting, true));
         stats.merge(s2);
         failure = f2;
     }
